@@ -6,8 +6,9 @@ import (
 
 // RS: the checksum gate on a keyed reader. A v2 frame with a dialect id that carries the spec signature for
 // the bytes on the wire (so the signature check accepts it) and an arbitrary checksum: it is delivered iff
-// the carried checksum is the spec value; a valid signature never stands in for the checksum.
-func verifHarness_C02_RS(n int) {
+// the carried checksum is the spec value; a valid signature never stands in for the checksum. keyed 0: the same
+// signed frame (arbitrary signature) at a reader with the dialect but WITHOUT a key.
+func verifHarness_C02_RS(n int, keyed int) {
 	d := verifDialectRW()
 	specs := verifSpecs()
 	s := specs[verifNondetRange(0, len(specs)-1)]
@@ -23,6 +24,12 @@ func verifHarness_C02_RS(n int) {
 	sigb := verifSpecSignature(keyb, 1, compat, seq, sys, comp, s.id, payload, ck, link, ts)
 	wire := verifSpecV2(1, compat, seq, sys, comp, s.id, payload, ck, true, link, ts, sigb)
 	want := verifSpecChecksumV2(1, compat, seq, sys, comp, s.id, payload, extra)
+	if keyed == 0 {
+		// a reader without a key does not look at signatures: signed frames (any signature) pass the same gate
+		key = nil
+		sigb = verifNondetBytes(6)
+		wire = verifSpecV2(1, compat, seq, sys, comp, s.id, payload, ck, true, link, ts, sigb)
+	}
 	rd := &Reader{ByteReader: &verifChunkReader{data: wire}, DialectRW: d, InKey: key}
 	verifAssert(rd.Initialize() == nil, "C02/RS/init")
 	fr, err := rd.Read()
